@@ -510,6 +510,9 @@ class PathResult(object):
         return "<path %d %s %r | %s>" % (self.index, self.kind, self.value, ",".join(self.ctx.notes))
 
 
+PATH_RESET_HOOKS = []     # callables run before every path: module-level state of the code under analysis is put back
+
+
 def explore(run, max_paths=5000, rlimit=2000000):
     """Enumerate all feasible paths of `run(ctx)`.  Interpreted exceptions (ordinary python
     exceptions raised by the code under analysis) are path outcomes of kind 'raise'."""
@@ -518,6 +521,8 @@ def explore(run, max_paths=5000, rlimit=2000000):
     while True:
         ctx = Ctx(decisions, rlimit=rlimit)
         Ctx.current = ctx
+        for hook in PATH_RESET_HOOKS:
+            hook()
         try:
             try:
                 v = run(ctx)
